@@ -11,6 +11,7 @@ import (
 	"net"
 	"net/http"
 	"sort"
+	"strings"
 	"sync"
 	"testing"
 	"time"
@@ -344,6 +345,9 @@ func getServer(t vh.TB, procs int) *srvRig {
 	if err != nil {
 		t.Fatalf("INFRA: cannot start server: %v", err)
 	}
+	p.Watch("foreign-agent", func(l string) bool {
+		return strings.Contains(l, "Received new backend") && !strings.Contains(l, `from "b"`)
+	})
 	servers[procs] = &srvRig{p, addr}
 	return servers[procs]
 }
@@ -564,7 +568,17 @@ func TestPropServerPollers(t *testing.T) {
 	defer closeServers()
 	vh.Rapid(t, vh.Scale(150, 3000), func(rt *rapid.T) {
 		c := genCaseB(rt)
-		recB.Check(rt, &c, func() vh.Outcome { return vh.Confirm(func(int) vh.Outcome { return runCaseB(rt, &c) }) })
+		recB.Check(rt, &c, func() vh.Outcome {
+			return vh.Confirm(func(int) vh.Outcome {
+				srv := getServer(rt, c.Procs)
+				o := runCaseB(rt, &c)
+				if o.Err != nil && srv.proc.Watched("foreign-agent") > 0 {
+					o.Inconclusive = "a foreign agent polled the proxy; discarded failure: " + o.Err.Error()
+					o.Err = nil
+				}
+				return o
+			})
+		})
 	})
 }
 
